@@ -90,6 +90,9 @@ func main() {
 	eng.solvers = solvers
 	eng.workers = runtime.NumCPU() / 2
 
+	// a contract is checked for the properties it names and for every property whose anchor
+	// files (properties.jsonl) contain the function
+	augmentProps(eng, filepath.Join(*verif, "properties.jsonl"))
 	var units []*UnitResult
 	for _, key := range eng.cs.Order {
 		fc := eng.cs.Funcs[key]
@@ -406,3 +409,45 @@ func writeEvidence(path, prop, tier string, seed int, units []*UnitResult, obls,
 var evidenceLevel = "proof"
 
 func round2(f float64) float64 { return float64(int(f*100+0.5)) / 100 }
+
+func augmentProps(eng *Engine, path string) {
+	b, err := os.ReadFile(path)
+	if err != nil {
+		return
+	}
+	anchors := map[string][]string{}
+	for _, line := range strings.Split(string(b), "\n") {
+		var p struct {
+			ID      string `json:"id"`
+			Anchors struct {
+				Files []string `json:"files"`
+			} `json:"anchors"`
+		}
+		if json.Unmarshal([]byte(line), &p) != nil || p.ID == "" {
+			continue
+		}
+		for _, f := range p.Anchors.Files {
+			f = strings.Fields(f)[0]
+			anchors[f] = append(anchors[f], p.ID)
+		}
+	}
+	for _, key := range eng.cs.Order {
+		fc := eng.cs.Funcs[key]
+		if fc.Kind != "func" {
+			continue
+		}
+		fn := eng.findFunc(fc)
+		if fn == nil {
+			continue
+		}
+		pos := eng.pos(fn.Pos())
+		if i := strings.LastIndex(pos, ":"); i >= 0 {
+			pos = pos[:i]
+		}
+		for _, id := range anchors[pos] {
+			if !hasProp(fc.Props, id) {
+				fc.Props = append(fc.Props, id)
+			}
+		}
+	}
+}
